@@ -57,6 +57,10 @@ def run(prog, rep):
     rep.rule('R10.10', 'MsgPack stream reader: a string delivered in several chunks is assembled in order (the memory reader views the text in place)', floor=1)
     from rules import chunkasm
     chunkasm.check(prog, rep, 'R10.10')
+    rep.rule('R10.11', 'the stream reader can go back after it met the end of the stream: seekg follows a clear() of the whole error state '
+                       '(the memory reader repositions by an index assignment that cannot fail)', floor=1)
+    from rules import c03
+    c03.check_seek_after_eof(prog, rep, 'R10.11')
     c09.check_lookahead_fresh(prog, rep, 'R10.6')       # the stream reader must notice the end of input exactly where the memory reader does
 
     try:
